@@ -52,12 +52,13 @@ Definition ck_iter (st : ck_st) : ck_st :=
              (ck_lines st ++ ck_print sl (ck_sp st) (Nat.min S (ti + 1)))
   else ck_mk k f' (ck_nloops st + 1) (ck_sp st) sl (ck_files st) (ck_lines st).
 
-(** after the loop: if ti % saveStep != 0 *)
+(** after the loop: if ti % saveStep != 0: for i in range(1, ti % saveStep + 1)  (repaired in f107601;
+    the original range(ti % saveStep) repeated the row of the last save and dropped the final one) *)
 Definition ck_final (st : ck_st) : ck_st :=
   if ck_ti st mod S =? 0 then st
   else ck_mk (ck_ti st) (ck_fld st) (ck_nloops st) (ck_sp st) (ck_slots st)
              (ck_files st ++ [(ck_ti st, ck_fld st)])
-             (ck_lines st ++ ck_print (ck_slots st) 0 (ck_ti st mod S)).
+             (ck_lines st ++ ck_print (ck_slots st) 1 (ck_ti st mod S + 1)).
 
 (** while ti < tN and timeForLoop: n = tN - ti iterations at most; [orc] = successive values of the
     wall-clock test ([] = never stops) *)
@@ -606,6 +607,64 @@ Proof.
   apply Permutation_app; [exact IH|]. replace (1 + q * S) with (q * S + 1) by lia. apply ck_window_perm.
 Qed.
 
+(** ** the rows of ANY uninterrupted run: T = q * S + r with r < S *)
+Definition ck_rows_spec_any (f0 : F) (T : nat) : list ck_line :=
+  ck_rows_spec f0 (T / S) ++ map (ck_L f0) (seq (T / S * S + 1) (T mod S)).
+
+Theorem ck_fresh_rows_any T f0 :
+  ck_lines (ck_final (ck_steps T (ck_fresh f0))) = ck_rows_spec_any f0 T.
+Proof.
+  unfold ck_rows_spec_any. set (q := T / S). set (r := T mod S).
+  assert (Hr : r < S) by (apply Nat.mod_upper_bound; lia).
+  assert (HT : T = q * S + r) by (pose proof (Nat.div_mod T S ltac:(lia)); unfold q, r; lia).
+  rewrite HT at 1. rewrite ck_steps_add.
+  destruct (ck_fresh_rows_aligned q f0) as [I1 [I2 [I3 I4]]].
+  set (sq := ck_steps (q * S) (ck_fresh f0)) in *.
+  destruct (ck_window_prefix q sq r I3 ltac:(lia)) as [W1 [W2 [W3 W4]]].
+  pose proof (ck_steps_ti r sq) as Tr. rewrite I3 in Tr.
+  unfold ck_final. rewrite Tr, ck_mod_in_window by exact Hr.
+  destruct (Nat.eqb_spec r 0) as [E|NE].
+  - rewrite W2, I1, E. cbn [seq map]. rewrite app_nil_r. reflexivity.
+  - cbn [ck_lines]. rewrite W2, I1. f_equal. unfold ck_print.
+    replace (r + 1 - 1) with r by lia.
+    rewrite <- (ck_map_shift (ck_L f0) (q * S) r 1).
+    apply map_ext_in. intros i Hi. apply in_seq in Hi.
+    rewrite W4 by lia. unfold ck_L. rewrite I4, <- ck_pow_add. reflexivity.
+Qed.
+
+Theorem ck_run_rows_any tN orc f0 :
+  ck_lines (ck_run tN orc (ck_fresh f0)) = ck_rows_spec_any f0 (ck_count tN orc).
+Proof.
+  rewrite ck_run_unfold. replace (ck_ti (ck_fresh f0)) with 0 by reflexivity.
+  rewrite Nat.sub_0_r. apply ck_fresh_rows_any.
+Qed.
+
+(** every time 0..T exactly once, wherever the run ends *)
+Theorem ck_rows_spec_any_perm f0 T : Permutation (ck_rows_spec_any f0 T) (map (ck_L f0) (seq 0 (T + 1))).
+Proof.
+  unfold ck_rows_spec_any.
+  pose proof (Nat.div_mod T S ltac:(lia)) as HT.
+  replace (T + 1) with ((T / S * S + 1) + T mod S) by lia.
+  rewrite seq_app, map_app. apply Permutation_app; [apply ck_rows_spec_perm|].
+  replace (0 + (T / S * S + 1)) with (T / S * S + 1) by lia. apply Permutation_refl.
+Qed.
+
+(** and so does a run that was stopped at multiples of saveStep only and restarted *)
+Theorem ck_restart_aligned_rows_once tN1 orc1 tN2 orc2 f0 :
+  let N := ck_count tN1 orc1 in
+  let st1 := ck_run tN1 orc1 (ck_fresh f0) in
+  N mod S = 0 ->
+  forall st2r, ck_restart (ck_files st1) = Some st2r ->
+  let st2 := ck_run tN2 orc2 st2r in
+  Permutation (ck_lines st1 ++ ck_lines st2) (map (ck_L f0) (seq 0 (N + ck_count (tN2 - N) orc2 + 1))).
+Proof.
+  cbv zeta. intros HN st2r Hr.
+  set (T := ck_count tN1 orc1 + ck_count (tN2 - ck_count tN1 orc1) orc2).
+  destruct (ck_restart_equiv_aligned tN1 orc1 tN2 orc2 T [] f0 HN st2r Hr) as [E _].
+  { rewrite ck_count_nil. reflexivity. }
+  rewrite <- E, ck_run_rows_any, ck_count_nil. apply ck_rows_spec_any_perm.
+Qed.
+
 End Driver.
 
 (** time stamps: the driver's t is k*dt (dt a positive integer: the collector indexes an array with
@@ -639,24 +698,25 @@ Definition ck_lines_split_nat (S N T : nat) : list (option nat) :=
   | None => []
   end.
 
-(** a simulation that ends between two save steps prints the row of the last save step a second time
-    and never prints the row of its final time (saveStep 3, 7 steps: row 6 twice, row 7 missing) *)
-Theorem ck_final_window_refuted :
-  ck_lines_unsplit_nat 3 7 = [Some 0; Some 3; Some 1; Some 2; Some 6; Some 4; Some 5; Some 6].
+(** since f107601 a new simulation that ends between two save steps prints every row once
+    (saveStep 3, 7 steps); see ck_run_rows_any for the general statement *)
+Example ck_final_window_example :
+  ck_lines_unsplit_nat 3 7 = [Some 0; Some 3; Some 1; Some 2; Some 6; Some 4; Some 5; Some 7].
 Proof. vm_compute. reflexivity. Qed.
 
 (** restart from a stop time that is not a multiple of saveStep (saveStep 3, stop after 1 step, continue
-    to 6): the row of the first save time after the restart (3) is never printed *)
+    to 6): the row of the stop time (1) is printed twice and the row of the first save time after the
+    restart (3) is never printed *)
 Theorem ck_restart_lines_refuted :
   ck_lines_unsplit_nat 3 6 = [Some 0; Some 3; Some 1; Some 2; Some 6; Some 4; Some 5] /\
-  ck_lines_split_nat 3 1 6 = [Some 0; Some 0; Some 1; Some 2; Some 6; Some 4; Some 5].
+  ck_lines_split_nat 3 1 6 = [Some 0; Some 1; Some 1; Some 2; Some 6; Some 4; Some 5].
 Proof. vm_compute. split; reflexivity. Qed.
 
 (** ... and if the restarted run ends before the next save step, it prints the never-collected slots
-    as zero rows (saveStep 3, stop after 1 step, continue to 2) *)
+    as zero rows (saveStep 4, stop after 2 steps, continue to 3) *)
 Theorem ck_restart_zero_rows_refuted :
-  ck_lines_unsplit_nat 3 2 = [Some 0; Some 0; Some 1] /\
-  ck_lines_split_nat 3 1 2 = [Some 0; Some 0; None; Some 1].
+  ck_lines_unsplit_nat 4 3 = [Some 0; Some 1; Some 2; Some 3] /\
+  ck_lines_split_nat 4 2 3 = [Some 0; Some 1; Some 2; None; Some 2; Some 3].
 Proof. vm_compute. split; reflexivity. Qed.
 
 Theorem ck_restart_lines_not_general :
@@ -665,3 +725,110 @@ Proof.
   intros H. specialize (H 3 1 6 ltac:(lia) ltac:(lia)).
   destruct ck_restart_lines_refuted as [A B]. rewrite A, B in H. discriminate.
 Qed.
+
+(** ** a proposed repair of the restart rows (NOT the code under verification; evidence for DESIGN 9 / the report)
+
+    startPrint becomes "the first slot of the current save window that is not yet in phiDat.txt":
+      startPrint = ti % saveStep + 1            at start-up (new run: 1; restart at N: the slot after N's)
+      at a save:  print slot 0 (the save time) and slots startPrint .. saveStep-1;  startPrint = 1
+      at the end: print slots startPrint .. ti % saveStep
+    [chrono = false] prints slot 0 first (the uninterrupted output is byte-for-byte what the code prints now);
+    [chrono = true] prints it last (rows in chronological order, restart-equivalence as equality of lists). *)
+Section Patch.
+Variables F D : Type.
+Variable step : F -> F.
+Variable diag : F -> D.
+Variable S : nat.
+Variable chrono : bool.
+
+Definition ckp_iter (st : ck_st F D) : ck_st F D :=
+  let ti := ck_ti _ _ st in
+  let f' := step (ck_fld _ _ st) in
+  let k := ti + 1 in
+  let sl := ck_collect F D diag S k f' (ck_slots _ _ st) in
+  if ti mod S =? S - 1
+  then ck_mk _ _ k f' (ck_nloops _ _ st + 1) 1 sl
+             (ck_files _ _ st ++ [(k, f')])
+             (ck_lines _ _ st ++ (if chrono then ck_print D sl (ck_sp _ _ st) S ++ [sl 0]
+                                   else sl 0 :: ck_print D sl (ck_sp _ _ st) S))
+  else ck_mk _ _ k f' (ck_nloops _ _ st + 1) (ck_sp _ _ st) sl (ck_files _ _ st) (ck_lines _ _ st).
+
+Definition ckp_final (st : ck_st F D) : ck_st F D :=
+  if ck_ti _ _ st mod S =? 0 then st
+  else ck_mk _ _ (ck_ti _ _ st) (ck_fld _ _ st) (ck_nloops _ _ st) (ck_sp _ _ st) (ck_slots _ _ st)
+             (ck_files _ _ st ++ [(ck_ti _ _ st, ck_fld _ _ st)])
+             (ck_lines _ _ st ++ ck_print D (ck_slots _ _ st) (ck_sp _ _ st) (ck_ti _ _ st mod S + 1)).
+
+Fixpoint ckp_steps (j : nat) (st : ck_st F D) : ck_st F D :=
+  match j with 0 => st | Datatypes.S j' => ckp_steps j' (ckp_iter st) end.
+
+Definition ckp_fresh (f0 : F) : ck_st F D :=
+  let sl := ck_collect F D diag S 0 f0 (fun _ => None) in
+  ck_mk _ _ 0 f0 0 1 sl [(0, f0)] [sl 0].
+
+Definition ckp_resume (k : nat) (f : F) : ck_st F D :=
+  ck_mk _ _ k f 0 (k mod S + 1) (ck_collect F D diag S k f (fun _ => None)) [] [].
+
+(** a history: new run to the first stop, then restart from the latest checkpoint to each further stop *)
+Fixpoint ckp_segments (stops : list nat) (folder : list (nat * F)) (rows : list (ck_line D))
+  : list (nat * F) * list (ck_line D) :=
+  match stops with
+  | [] => (folder, rows)
+  | T :: more =>
+      match ck_latest F folder with
+      | Some (k, f) =>
+          let st := ckp_final (ckp_steps (T - k) (ckp_resume k f)) in
+          ckp_segments more (folder ++ ck_files _ _ st) (rows ++ ck_lines _ _ st)
+      | None => (folder, rows)
+      end
+  end.
+
+Definition ckp_history (f0 : F) (stops : list nat) : list (nat * F) * list (ck_line D) :=
+  match stops with
+  | [] => ([], [])
+  | T :: more =>
+      let st := ckp_final (ckp_steps T (ckp_fresh f0)) in
+      ckp_segments more (ck_files _ _ st) (ck_lines _ _ st)
+  end.
+End Patch.
+
+Definition ckp_rows_nat (chrono : bool) (S : nat) (stops : list nat) : list (option nat) :=
+  map ck_line_time (snd (ckp_history nat nat Datatypes.S (fun x => x) S chrono 0 stops)).
+
+Fixpoint ck_opt_list_eqb (a b : list (option nat)) : bool :=
+  match a, b with
+  | [], [] => true
+  | Some x :: a', Some y :: b' => (x =? y) && ck_opt_list_eqb a' b'
+  | None :: a', None :: b' => ck_opt_list_eqb a' b'
+  | _, _ => false
+  end.
+
+Definition ck_once (T : nat) (rows : list (option nat)) : bool :=
+  (length rows =? T + 1) &&
+  forallb (fun k => existsb (fun r => match r with Some x => x =? k | None => false end) rows) (seq 0 (T + 1)).
+
+(** all histories with up to two restarts: saveStep 1..6, stop points 0 <= N1 <= N2 <= T <= 12 *)
+Definition ckp_all_histories : list (nat * list nat) :=
+  flat_map (fun S => flat_map (fun T => flat_map (fun N2 => flat_map (fun N1 =>
+     [(S, [T]); (S, [N2; T]); (S, [N1; N2; T])]) (seq 0 (N2 + 1))) (seq 0 (T + 1))) (seq 0 13)) (seq 1 6).
+
+Definition ckp_last (l : list nat) : nat := last l 0.
+
+(** chronological variant: the rows of every such history are exactly 0, 1, ..., T in this order, i.e.
+    equal as lists to those of the uninterrupted run *)
+Theorem ckp_chrono_restart_equiv_bounded :
+  forallb (fun h => ck_opt_list_eqb (ckp_rows_nat true (fst h) (snd h))
+                                    (map Some (seq 0 (ckp_last (snd h) + 1)))) ckp_all_histories = true.
+Proof. vm_compute. reflexivity. Qed.
+
+(** order-preserving variant: every time exactly once in every such history, and the uninterrupted run
+    prints exactly what the current code prints *)
+Theorem ckp_keep_order_restart_equiv_bounded :
+  forallb (fun h => ck_once (ckp_last (snd h)) (ckp_rows_nat false (fst h) (snd h))) ckp_all_histories = true /\
+  forallb (fun h => ck_opt_list_eqb (ckp_rows_nat false (fst h) [ckp_last (snd h)])
+                                    (ck_lines_unsplit_nat (fst h) (ckp_last (snd h)))) ckp_all_histories = true.
+Proof. vm_compute. split; reflexivity. Qed.
+
+(** the same check fails for the current code as soon as a stop point is not a multiple of saveStep *)
+Example ck_current_code_fails_check : ck_once 6 (ck_lines_split_nat 3 1 6) = false.
+Proof. vm_compute. reflexivity. Qed.
